@@ -31,10 +31,12 @@ def run(pk,h,tier,params,timeout,estimate=0):
     m3=re.search(r'ESTIMATE paths=(\d+) stderr=(\d+) probes=(\d+) cpu_s_per_path=([\d.]+)',o)
     if m3: est=(float(m3.group(1)),float(m3.group(4)))
     return st,paths,wall,ps,est
+RATE={}
 def esttime(pk,h,params):
+    # estimated number of paths / measured throughput of a real run of the quick profile
     st,_,_,_,est=run(pk,h,'thorough',params,120,estimate=3000)
     if st in('unsupp','error') or not est: return None,st
-    return est[0]*est[1]/16.0, st
+    return 1.5*est[0]/RATE[h], st
 for pid in sorted(c):
     if only and pid not in only: continue
     pk=','.join(c[pid]['pkgs'])
@@ -48,6 +50,9 @@ for pid in sorted(c):
         for k in q: t.setdefault(k,q[k])
         log=[]
         cur=dict(q)
+        st0,p0,w0,_,_=run(pk,h,'thorough',dict(q),4*budget)
+        RATE[h]=max(p0,1)/max(w0,0.5)
+        log.append(('quick-real',st0,p0,w0))
         # decreasing parameters (compensations coded for the thorough tier) stay at their quick value
         et,st=esttime(pk,h,dict(t)); log.append(('coded',et,st))
         if et is not None and et<=budget:
